@@ -229,13 +229,18 @@ class SubprocessShim(object):
 
     def run(self, command, **kw):
         check = kw.pop("check", False)
+        text = kw.get("text") or kw.get("universal_newlines") or kw.get("encoding")
         try:
             out = self._w.run_compiler(command, kw)
             rc = 0
         except _real_subprocess.CalledProcessError as exc:
             if check:
+                if text and isinstance(exc.output, bytes):
+                    exc.output = exc.output.decode()
                 raise
             out, rc = exc.output, exc.returncode
+        if text and isinstance(out, bytes):
+            return _real_subprocess.CompletedProcess(command, rc, out.decode(), "")
         return _real_subprocess.CompletedProcess(command, rc, out, b"")
 
 
